@@ -330,90 +330,201 @@ mod proofs {
   use super::*;
   // @PLAYBACK@
 
-  /// OP_RETURN OP_13 PUSH(L) <L symbolic bytes>, two outputs.
-  fn decipher_vs_ref<const L: usize>() {
-    let payload: [u8; L] = kani::any();
-    let mut script = [0u8; 64];
+  /// Oracle for payload assembly, from the specification ("Assembling the Payload
+  /// Buffer") and Bitcoin's push-opcode encoding: opcodes 0..=75 push that many bytes,
+  /// 76/77/78 take a 1/2/4-byte little-endian length; anything >= 79 is a non-push
+  /// opcode; a push running past the end of the script is an invalid script.
+  /// Returns (flaw, payload bytes, payload length).
+  fn ref_payload(rest: &[u8]) -> (Option<Flaw>, [u8; 8], usize) {
+    let mut out = [0u8; 8];
+    let mut n = 0usize;
+    let mut i = 0usize;
+    while i < rest.len() {
+      let op = rest[i];
+      i += 1;
+      let len: usize;
+      if op <= 75 {
+        len = op as usize;
+      } else if op == 76 {
+        if i + 1 > rest.len() {
+          return (Some(Flaw::InvalidScript), out, n);
+        }
+        len = rest[i] as usize;
+        i += 1;
+      } else if op == 77 {
+        if i + 2 > rest.len() {
+          return (Some(Flaw::InvalidScript), out, n);
+        }
+        len = rest[i] as usize | (rest[i + 1] as usize) << 8;
+        i += 2;
+      } else if op == 78 {
+        if i + 4 > rest.len() {
+          return (Some(Flaw::InvalidScript), out, n);
+        }
+        len = rest[i] as usize | (rest[i + 1] as usize) << 8 | (rest[i + 2] as usize) << 16 | (rest[i + 3] as usize) << 24;
+        i += 4;
+      } else {
+        return (Some(Flaw::Opcode), out, n);
+      }
+      if len > rest.len() - i {
+        return (Some(Flaw::InvalidScript), out, n);
+      }
+      let mut j = 0;
+      while j < len {
+        out[n] = rest[i + j];
+        n += 1;
+        j += 1;
+      }
+      i += len;
+    }
+    (None, out, n)
+  }
+
+  fn payload_vs_oracle<const L: usize>() {
+    let rest: [u8; L] = kani::any();
+    let mut script = [0u8; 16];
     script[0] = 0x6a;
     script[1] = 0x5d;
-    script[2] = L as u8;
     let mut i = 0;
     while i < L {
-      script[3 + i] = payload[i];
+      script[2 + i] = rest[i];
       i += 1;
     }
-    let tx = tx_with_script(&script[..3 + L], 1);
-    let r = Runestone::decipher(&tx);
-    kani::cover!(matches!(r, Some(Artifact::Runestone(_))));
-    kani::cover!(matches!(r, Some(Artifact::Cenotaph(_))));
-    assert!(agree(r, &payload, 2));
+    let tx = tx_with_script(&script[..2 + L], 0);
+    let r = Runestone::payload(&tx);
+    let (flaw, want, n) = ref_payload(&rest);
+    kani::cover!(flaw.is_none() && n > 0);
+    kani::cover!(flaw == Some(Flaw::Opcode));
+    kani::cover!(flaw == Some(Flaw::InvalidScript));
+    match r {
+      None => panic!("an output starting with OP_RETURN OP_13 must yield a payload"),
+      Some(Payload::Invalid(f)) => assert!(flaw == Some(f)),
+      Some(Payload::Valid(v)) => {
+        assert!(flaw.is_none());
+        assert!(v.len() == n);
+        let mut k = 0;
+        while k < n {
+          assert!(v[k] == want[k]);
+          k += 1;
+        }
+        std::mem::forget(v);
+      }
+    }
     std::mem::forget(tx);
   }
 
   #[kani::proof]
   #[kani::unwind(8)]
-  fn p25_payload_only() {
-    let payload: [u8; 2] = kani::any();
-    let script = [0x6a, 0x5d, 2, payload[0], payload[1]];
-    let tx = tx_with_script(&script, 1);
+  fn c25_payload_vs_oracle_l3() {
+    payload_vs_oracle::<3>();
+  }
+
+  #[kani::proof]
+  #[kani::unwind(9)]
+  fn c25_payload_vs_oracle_l5() {
+    payload_vs_oracle::<5>();
+  }
+
+  #[kani::proof]
+  #[kani::unwind(6)]
+  fn c25_only_op_return_op13_outputs_yield() {
+    // "it yields nothing unless an output starts with OP_RETURN OP_13"
+    let script: [u8; 3] = kani::any();
+    let len: usize = kani::any();
+    kani::assume(len <= 3);
+    let tx = tx_with_script(&script[..len], 0);
     let r = Runestone::payload(&tx);
-    kani::cover!(r.is_some());
-    assert!(matches!(r, Some(Payload::Valid(_))));
+    let magic = len >= 2 && script[0] == 0x6a && script[1] == 0x5d;
+    kani::cover!(magic);
+    kani::cover!(!magic && len == 3);
+    assert!(r.is_some() == magic);
     std::mem::forget(r);
     std::mem::forget(tx);
   }
 
-  #[kani::proof]
-  #[kani::unwind(8)]
-  fn p25_integers_only() {
-    let payload: [u8; 4] = kani::any();
-    let r = Runestone::integers(&payload);
-    kani::cover!(r.is_ok());
-    if let Ok(v) = &r {
-      assert!(v.len() <= 4);
+  fn integers_vs_ref<const L: usize>() {
+    let payload: [u8; L] = kani::any();
+    let len: usize = kani::any();
+    kani::assume(len <= L);
+    let r = Runestone::integers(&payload[..len]);
+    let want = ref_integers(&payload[..len]);
+    kani::cover!(r.is_ok() && len == L);
+    kani::cover!(r.is_err());
+    match (&r, &want) {
+      (Ok(v), Some(w)) => {
+        assert!(v.len() == w.n);
+        let mut i = 0;
+        while i < w.n {
+          assert!(v[i] == w.v[i]);
+          i += 1;
+        }
+      }
+      (Err(_), None) => {}
+      _ => panic!("integer decoding disagrees with the LEB128 reference"),
     }
     std::mem::forget(r);
   }
 
   #[kani::proof]
   #[kani::unwind(8)]
-  fn p25_message_only() {
-    let tx = tx_with_script(&[], 1);
-    let ints: [u128; 4] = kani::any();
+  fn c25_integers_vs_reference_le6() {
+    integers_vs_ref::<6>();
+  }
+
+  fn message_vs_ref<const N: usize>() {
+    let tx = tx_with_script(&[], 1); // two outputs
+    let ints: [u128; N] = kani::any();
     let m = Message::from_integers(&tx, &ints);
-    kani::cover!(m.flaw.is_some());
-    kani::cover!(m.edicts.len() == 0 && m.flaw.is_none());
-    std::mem::forget(m);
+    let mut w = Ints { n: N, v: [0; MAXI] };
+    let mut i = 0;
+    while i < N {
+      w.v[i] = ints[i];
+      i += 1;
+    }
+    let want = ref_message(&w, 2);
+    kani::cover!(want.flaw.is_none() && want.ne == 1);
+    kani::cover!(want.flaw == Some(Flaw::EdictOutput));
+    kani::cover!(want.flaw == Some(Flaw::TruncatedField) || want.flaw == Some(Flaw::TrailingIntegers));
+    assert!(m.flaw == want.flaw);
+    assert!(m.edicts.len() == want.ne);
+    let mut k = 0;
+    while k < want.ne {
+      assert!(m.edicts[k] == want.edicts[k]);
+      k += 1;
+    }
+    // every tag/value pair of the reference is stored under its tag, in order
+    let mut fields = m.fields;
+    let mut f = 0;
+    while f < want.nf {
+      let tag = want.fields[f].tag;
+      let mut pos = 0;
+      let mut g = 0;
+      while g < f {
+        if want.fields[g].tag == tag {
+          pos += 1;
+        }
+        g += 1;
+      }
+      match fields.get_mut(&tag) {
+        Some(q) => assert!(q.get(pos).copied() == Some(want.fields[f].val)),
+        None => panic!("field missing"),
+      }
+      f += 1;
+    }
+    std::mem::forget(fields);
+    std::mem::forget(m.edicts);
     std::mem::forget(tx);
   }
 
   #[kani::proof]
   #[kani::unwind(8)]
-  fn p25_decipher_only_l2() {
-    let payload: [u8; 2] = kani::any();
-    let script = [0x6a, 0x5d, 2, payload[0], payload[1]];
-    let tx = tx_with_script(&script, 1);
-    let r = Runestone::decipher(&tx);
-    kani::cover!(r.is_some());
-    std::mem::forget(r);
-    std::mem::forget(tx);
+  fn c25_message_vs_reference_n5() {
+    message_vs_ref::<5>();
   }
 
   #[kani::proof]
-  #[kani::unwind(12)]
-  fn c25_decipher_vs_reference_l2() {
-    decipher_vs_ref::<2>();
-  }
-
-  #[kani::proof]
-  #[kani::unwind(12)]
-  fn c25_decipher_vs_reference_l4() {
-    decipher_vs_ref::<4>();
-  }
-
-  #[kani::proof]
-  #[kani::unwind(12)]
-  fn c25_decipher_vs_reference_l6() {
-    decipher_vs_ref::<6>();
+  #[kani::unwind(10)]
+  fn c25_message_vs_reference_n6() {
+    message_vs_ref::<6>();
   }
 }
